@@ -12,17 +12,35 @@ class Prop:
     technique = ("Lean 4 invariant proofs over a transition-system model of TimerQueue (all operation sequences, clock "
                  "readings, allocation orders) + T1 extraction of constants/guards from the clang AST + differential run of the "
                  "real EventLoop/TimerQueue under a virtual clock + independent trace oracle")
-    level_text = ("Kernel-checked theorems for every operation sequence of the model (adds from the loop thread, from "
-                  "callbacks and from foreign threads, cancels, expiry batches with every clock reading and every allocation "
-                  "address as input): no callback runs before its deadline and the k-th repetition not before the first deadline "
-                  "plus k-1 intervals; a one-shot timer runs at most once; batches run in deadline order; timers_ and "
-                  "activeTimers_ hold the same timers; whenever the loop goes back to poll with a pending timer the timerfd is "
-                  "readable or armed no later than max(earliest deadline, arm time + 100 us); the model's constants and branch "
-                  "guards are re-extracted from /repo on every run and the model is tied to the real classes by a differential run")
+    level_text = ("Kernel-checked theorems (Props/C06.lean) for every input list of the model (adds from the loop thread, from "
+                  "callbacks nested to any depth and from foreign threads incl. the split at the hand-over point, cancels from "
+                  "all three places, every clock reading, every allocation address and every firing of the timerfd as input; "
+                  "unbounded length): never_early (every recorded callback run happens in a batch whose clock reading has "
+                  "reached the deadline it was queued under; that deadline is the creation deadline for the first run and at "
+                  "least first + (k-1)*interval for the k-th run; same_timer: all runs of one sequence number carry the same "
+                  "timer data; numbering: the k-th run carries k); once (a one-shot timer has at most one run in any "
+                  "history) and fires_due (a loop iteration with the timerfd readable runs every pending timer whose deadline "
+                  "is <= the reading handleRead makes, as a new run, whatever earlier callbacks of the batch do); batch_order "
+                  "(the runs of one iteration are exactly the due timers, in (deadline, address) order, none left out; "
+                  "only_iter_runs: no other step runs a callback); sets_agree (timers_/activeTimers_ hold the same timers, "
+                  "timers_ strictly sorted, no duplicates in either, same size; preserved inside batches too); armed (for "
+                  "histories whose registered/restarted deadlines are valid Timestamps: whenever the loop may poll with a "
+                  "pending timer the timerfd is readable or armed no later than max(earliest deadline, arm time + 100 us)); "
+                  "eventually_runs (one-step liveness: clock reading >= deadline, then the timerfd fires, then one "
+                  "iteration runs the timer). Constants and guards are re-extracted from /repo on every run (T1) and the "
+                  "model is tied to the real classes by the differential run")
     level_note = ("Trusted: Lean kernel (propext, Classical.choice, Quot.sound only), vlib/extract.py + vlib/gen/timer.py, the "
-                  "hand-written parts of Model/Timer.lean as far as the differential run exercises them, the harness "
-                  "(virtual clock and virtual timerfd of interpose.h), std::set/std::function/glibc malloc. Liveness is stated "
-                  "under the named hypothesis EnvTimerfdFires (the kernel makes an armed timerfd readable).")
+                  "hand-written parts of Model/Timer.lean as far as the differential run exercises them (ghost fields of the "
+                  "events — addr, rep, first, delta, k, found — and the ghost event `restarted` are not compared), the harness "
+                  "(virtual clock and virtual timerfd of interpose.h), std::set/std::function/glibc malloc. armed and "
+                  "eventually_runs carry the explicit hypothesis ValidTr (every deadline put into timers_ is > 0 us since the "
+                  "epoch); the excluded branch is described by armed_excluded_branch (reset() does not re-arm) and shown to "
+                  "matter by armed_needs_valid_deadlines (deadline -5 us, clock -10 us: the queue stays unarmed). "
+                  "eventually_runs is a progress step under the environment inputs now/expire/iter (EnvTimerfdFires = the "
+                  "kernel makes an armed timerfd readable), not a fairness theorem over infinite runs. Not proved: that the "
+                  "clock reading at the moment of the callback is >= the batch reading (needs a monotone-clock hypothesis); "
+                  "the cross-batch ordering is only given through batch_order's completeness clause (a due timer is never "
+                  "left for a later batch); 'on the loop thread' is not part of this model (C08).")
     rule = ("random timer programs (up to 200 adds: runAt/runAfter/runEvery, delays from -5 ms to 300 ms around the 100 us "
             "floor, many equal deadlines, repeating intervals from sub-microsecond to 150 ms) issued from the loop thread, from "
             "timer callbacks (scripts, nested) and from joined foreign threads, interleaved with cancels, clock advances that hit "
@@ -38,7 +56,9 @@ class Prop:
         "std::set, std::function, operator new/delete behave as documented",
     ]
     assumptions = [
-        "EnvTimerfdFires: an armed timerfd becomes readable once its alarm time is reached and poll reports it (kernel)",
+        "EnvTimerfdFires: an armed timerfd becomes readable once its alarm time is reached and poll reports it (kernel); in "
+        "eventually_runs it appears as the explicit inputs In.expire / In.iter",
+        "ValidTr (armed, eventually_runs): deadlines put into timers_ are valid Timestamps (> 0 us since the epoch)",
         "Timer addresses are below UINTPTR_MAX and non-null (the getExpired sentinel); `new` returns an address that is not live",
         "intervals/delays are passed as doubles whose product with 1e6 truncates to the stated integer (the generator only uses such values)",
     ]
